@@ -5,6 +5,7 @@ class C08(TieCheck):
     pid = "C08"
     area = "Route"
     props = ["Props_C08.v"]
+    coq_targets = ["Corr.vo"]
     harness = "c01"
     extra_trust = ["model M1: coq/Route/Lookup.v (tsr detection sites and propagation); specification: Spec.spec_lookup = direct(host) > tsr(host) > direct(path) > tsr(path) on the slash-toggled path",
                    "dispatch/redirect half of C08 is checked in coq/Dispatch (see C11)"]
